@@ -557,6 +557,9 @@ impl Gen {
             return Op::Push(self.faulty_like(&info));
         }
         let m = self.choose_legal(&info, w).unwrap();
+        if self.rng.chance(6) {
+            return Op::PushUnchecked(m);
+        }
         Op::Push(self.legal_like(&info, &m))
     }
 
@@ -865,7 +868,7 @@ impl Gen {
     pub fn observe(&mut self, op: &Op, w: &World) {
         self.hot = match op {
             Op::Pop => true,
-            Op::Push(_) | Op::PushUciList(_) => w.rc.moves.last().map_or(false, |m| {
+            Op::Push(_) | Op::PushUnchecked(_) | Op::PushUciList(_) => w.rc.moves.last().map_or(false, |m| {
                 use owlchess::MoveKind::*;
                 !matches!(m.kind(), Simple | Null)
             }),
